@@ -100,6 +100,8 @@ func runC09(s *kernel.Sim) {
 		desc = append(desc, fmt.Sprintf("%s:allowed=%d,win=%ds,status=%d,grouped=%v,pct=%v,def=%s/%d", r.name, r.allowed, r.winS, r.status, r.grouped, r.pct10, r.def, r.defPct10))
 	}
 	s.Knobs["remedies"], s.Knobs["ops"], s.Knobs["burst"], s.Knobs["lock_sites"] = desc, nOps, burstP, density
+	shareChanges := !precise && tp.Chance(1, 3)
+	s.Knobs["share_changes"] = shareChanges
 	s.Knobs["window_change_per_10_ops"] = changeP
 
 	cl := clock.NewRealClock()
@@ -145,6 +147,28 @@ func runC09(s *kernel.Sim) {
 		lastW[g] = r.winS
 		return fmt.Sprintf("%s|%d|%d", g, epoch[g], k), changeWin[g] != k
 	}
+	// Allowance or percentage changes (a policy reload that keeps the window size):
+	// the counter of the running window stays, the new share applies. In a grid
+	// window in which requests met different shares only the bound is judged, against
+	// the largest of them.
+	limSeen := map[string][2]int64{}
+	bound := func(key string, lim int64) (int64, bool) {
+		mm, ok := limSeen[key]
+		if !ok {
+			mm = [2]int64{lim, lim}
+		}
+		if lim < mm[0] {
+			mm[0] = lim
+		}
+		if lim > mm[1] {
+			mm[1] = lim
+		}
+		limSeen[key] = mm
+		if mm[0] != mm[1] {
+			s.FaultFired("share_changed_within_a_window")
+		}
+		return mm[1], mm[0] == mm[1]
+	}
 	type verdict struct {
 		pass   bool
 		status int
@@ -188,6 +212,24 @@ func runC09(s *kernel.Sim) {
 	n := 0
 	for op := 0; op < nOps && !s.Failed(); op++ {
 		r := rems[tp.Choose(len(rems))]
+		if shareChanges && tp.Chance(1, 6) {
+			// a reload that keeps the window size and changes the allowance or a percentage
+			if r.grouped && len(r.pct10) > 0 && tp.Chance(1, 2) {
+				gs := sortedKeys(r.pct10)
+				g := gs[tp.Choose(len(gs))]
+				r.pct10[g] = pcts[tp.Choose(len(pcts))]
+				for i := range r.cfg.GroupQuotaAllocation.Groups {
+					if r.cfg.GroupQuotaAllocation.Groups[i].GroupHeaderValue == g {
+						r.cfg.GroupQuotaAllocation.Groups[i].AllocationPercentage = float64(r.pct10[g]) / 10
+					}
+				}
+				s.Event("percentage", r.name, g, fmt.Sprint(r.pct10[g]))
+			} else {
+				r.allowed = int64(tp.Range(1, 6))
+				r.cfg.AllowedRequestCount = r.allowed
+				s.Event("allowance", r.name, fmt.Sprint(r.allowed))
+			}
+		}
 		if changeP > 0 && tp.Chance(changeP, 10) {
 			r.winS = wins[tp.Choose(len(wins))]
 			r.cfg.WindowSizeInSeconds = r.winS
@@ -262,6 +304,7 @@ func runC09(s *kernel.Sim) {
 			s.Event("burst", r.name, grp, fmt.Sprintf("n=%d passes=%d held=%v", len(res), passes, held))
 			if counted && !held {
 				key, _ := model(r, grp, k)
+				lim, _ = bound(key, lim)
 				s.Rule("R1")
 				if counts[key]+passes > lim {
 					s.Violate("R1", "window-exceeded-concurrent", "remedy %s group %q grid window %d: %d passed before + %d passed concurrently > limit %d", r.name, grp, k, counts[key], passes, lim)
@@ -275,6 +318,12 @@ func runC09(s *kernel.Sim) {
 				k2 := k + 1
 				key1, _ := model(r, grp, k)
 				key2, _ := model(r, grp, k2)
+				b1, _ := bound(key1, lim)
+				b2, _ := bound(key2, lim)
+				if b2 > b1 {
+					b1 = b2
+				}
+				lim = b1
 				f1, f2, flex := counts[key1], counts[key2], int64(0)
 				for i, v := range res {
 					if !v.pass {
@@ -332,6 +381,8 @@ func runC09(s *kernel.Sim) {
 			continue
 		}
 		key, exact := model(r, grp, k)
+		lim, same := bound(key, lim)
+		exact = exact && same
 		s.Rule("R1")
 		s.Rule("R2")
 		s.State(fmt.Sprintf("%d/%d", counts[key], lim))
